@@ -82,10 +82,70 @@ def sampling_positions(seed):
     return n, None
 
 
+def response_slots(seed, which=None):
+    """slot correspondence: with electric and magnetic receivers listed in mixed order (magnetic, electric, electric, magnetic, electric; absolute and
+    source-relative) the datum reported for (source, receiver i, frequency) is the response of receiver i ITSELF -- the electric field for an electric
+    receiver, the magnetic field for a magnetic one, sampled alone at its own absolute position -- for the stored field of the pair (synthetic data after
+    compute) and for a field handed to Simulation._get_responses (the way jvec uses it); `which` ('stored' / 'given') restricts the check to one of the two.
+    Each reference value is sampled receiver by receiver with Field.get_receiver, the types are taken from the classes handed to the Survey."""
+    import emg3d
+    rng = np.random.default_rng(seed)
+    h = [40.0 * 1.08 ** np.abs(np.arange(8) - 3.5) for _ in range(3)]
+    grid = emg3d.TensorMesh(h, origin=(-sum(h[0]) / 2, -sum(h[1]) / 2, -sum(h[2]) / 2 - 100))
+    model = emg3d.Model(grid, property_x=rng.uniform(0.7, 1.6, grid.shape_cells), mapping='Resistivity')
+    src = {'TxED-1': emg3d.TxElectricDipole((-40.0, 5.0, -90.0, 15, 5)), 'TxED-2': emg3d.TxElectricDipole((35.0, -10.0, -110.0, 80, -10))}
+    rec = [('RxMP-1', emg3d.RxMagneticPoint, (25.0, 15.0, -100.0, 20, 5), False), ('RxEP-2', emg3d.RxElectricPoint, (30.0, 35.0, 15.0, 0, 10), True),
+           ('RxEP-3', emg3d.RxElectricPoint, (-20.0, -35.0, -80.0, 45, 20), False), ('RxMP-4', emg3d.RxMagneticPoint, (-45.0, 20.0, -10.0, 70, -10), True),
+           ('RxEP-5', emg3d.RxElectricPoint, (10.0, 30.0, -120.0, -30, 0), False)]
+    survey = emg3d.Survey(sources=src, receivers={n: c(xyz, relative=rel) for n, c, xyz, rel in rec}, frequencies=[1.0, 3.0], noise_floor=1e-15, relative_error=0.05)
+    sim = emg3d.Simulation(survey, model, gridding='same', max_workers=1, receiver_interpolation='linear', solver_opts=dict(tol=1e-7, maxit=60, verb=0),
+                           tqdm_opts=dict(disable=True), verb=-1)
+    sim.compute()
+    n = 0
+    names = list(src)
+    for sn, fn in [(a, b) for a in names for b in ('f-1', 'f-2')]:
+        centre = np.array(src[sn].center, float)
+        other = sim.get_efield([x for x in names if x != sn][0], fn)          # a different field, handed in explicitly
+        for how, ef, got_all in (('synthetic data after compute (stored field)', sim.get_efield(sn, fn), np.array(sim.data['synthetic'].loc[sn, :, fn].data)),
+                                 ('Simulation._get_responses(source, frequency, efield) with a given field', other, np.array(sim._get_responses(sn, fn, other)))):
+            if which is not None and which not in how:
+                continue
+            hf = emg3d.fields.get_magnetic_field(sim.get_model(sn, fn), ef)
+            if got_all.shape != (len(rec),):
+                return n, dict(reproduced=True, cases=n, clause='one datum per receiver of the survey, in survey order', source=sn, frequency=fn, what=how, shape=got_all.shape, receivers=len(rec))
+            for i, (rn, cls_, xyz, rel) in enumerate(rec):
+                c = np.array(xyz, float)
+                pos = np.r_[c[:3] + (centre if rel else 0.0), c[3:]]
+                fld = hf if cls_ is emg3d.RxMagneticPoint else ef
+                want = complex(np.squeeze(fld.get_receiver(tuple(pos), method='linear')))
+                got = complex(got_all[i])
+                n += 1
+                if not np.isfinite(want) or not abs(got - want) <= 1e-9 * abs(want):
+                    slots = [j for j, (_, c2, x2, r2) in enumerate(rec) for p2 in [np.r_[np.array(x2[:3], float) + (centre if r2 else 0.0), x2[3:]]]
+                             for w2 in [complex(np.squeeze((hf if c2 is emg3d.RxMagneticPoint else ef).get_receiver(tuple(p2), method='linear')))]
+                             if abs(got - w2) <= 1e-9 * abs(w2)]
+                    return n, dict(reproduced=True, cases=n, clause='the datum in slot i is the response of receiver i itself (field of its own type at its own absolute position)',
+                                   what=how, source=sn, frequency=fn, receiver=rn, slot=i, receiver_order=[x[0] for x in rec], position_required=pos.tolist(), datum=str(got),
+                                   response_of_this_receiver=str(want), datum_is_the_response_of_slots=slots,
+                                   how='contracts.c07_concrete.response_slots: emg3d.Simulation on a stretched 8x8x8 grid, two electric dipoles, two frequencies, receivers listed as magnetic, '
+                                       'electric (relative), electric, magnetic (relative), electric')
+    return n, None
+
+
+def replay_slots(seed=0, which=None):
+    n, bad = response_slots(seed, which)
+    return bad if bad is not None else dict(reproduced=False, cases=n)
+
+
 def check(tier='quick', seed=0):
     import emg3d
     cases, bad = sampling_positions(seed)
     if bad is not None:
+        return bad
+    n, bad = response_slots(seed)
+    cases += n
+    if bad is not None:
+        bad['cases'] = cases
         return bad
     cfgs = [('VTI', 'LgResistivity', 1, 'dipoles'), ('isotropic', 'Resistivity', 1, 'dipoles'), ('isotropic', 'Conductivity', 1, 'loop')] if tier == 'quick' else \
         [('isotropic', 'Resistivity', 2, 'dipoles'), ('VTI', 'LgResistivity', 1, 'dipoles'), ('HTI', 'Conductivity', 1, 'dipoles'), ('triaxial', 'LnConductivity', 1, 'dipoles'),
